@@ -1,0 +1,69 @@
+//go:build verif
+
+package client
+
+// Contract file: comments only, parsed by /verif/cmd/govc (see /verif/DESIGN.md §2.2).
+// It contains no executable code; without the build tag it is not even compiled.
+
+// ---------------------------------------------------------------- scheme selection (C10)
+
+//@ spec hasHTTPS(schemes) := exists k int :: 0 <= k && k < len(schemes) && schemes[k] == "https"
+
+//@ func (*Runtime).selectScheme
+//@ ensures [C10:none] len(schemes) == 0 ==> result == ""
+//@ ensures [C10:https] len(schemes) > 0 && hasHTTPS(schemes) ==> result == "https"
+//@ ensures [C10:first] len(schemes) > 0 && !hasHTTPS(schemes) ==> result == schemes[0]
+//@ assigns \nothing
+//@ loop 0 invariant forall k int :: 0 <= k && k <= rangeindex ==> schemes[k] != "https"
+//@ loop 0 invariant scheme == schemes[0] && scheme != "https"
+
+//@ func (*Runtime).pickScheme
+//@ requires r != nil
+//@ ensures [C10:runtime] len(r.schemes) > 0 && hasHTTPS(r.schemes) ==> result == "https"
+//@ ensures [C10:runtime1] len(r.schemes) > 0 && !hasHTTPS(r.schemes) && r.schemes[0] != "" ==> result == r.schemes[0]
+//@ ensures [C10:op] len(r.schemes) == 0 && len(schemes) > 0 && hasHTTPS(schemes) ==> result == "https"
+//@ ensures [C10:op1] len(r.schemes) == 0 && len(schemes) > 0 && !hasHTTPS(schemes) && schemes[0] != "" ==> result == schemes[0]
+//@ ensures [C10:default] len(r.schemes) == 0 && len(schemes) == 0 ==> result == "http"
+//@ ensures result != ""
+//@ assigns \nothing
+
+// ---------------------------------------------------------------- TLS options (C18)
+
+//@ func basePool
+//@ ensures pool != nil ==> result == pool
+//@ ensures pool == nil ==> result != nil
+//@ assigns \opaque
+
+//@ func TLSClientAuth
+//@ watch LK = call crypto/tls.LoadX509KeyPair
+//@ watch XK = call crypto/tls.X509KeyPair
+//@ watch RF = call os.ReadFile
+//@ watch AC = call (*crypto/x509.CertPool).AddCert
+//@ watch AP = call (*crypto/x509.CertPool).AppendCertsFromPEM
+//@ watch EC = call crypto/x509.MarshalECPrivateKey
+//@ ensures [err] result1 != nil ==> result0 == nil
+//@ ensures [fresh] result1 == nil ==> result0 != nil && fresh(result0)
+//@ ensures [version] result1 == nil ==> result0.MinVersion == tls.VersionTLS12 && result0.MaxVersion == 0
+//@ ensures [insecure] result1 == nil ==> (result0.InsecureSkipVerify <==> (opts.InsecureSkipVerify && opts.ServerName == ""))
+//@ ensures [servername] result1 == nil ==> result0.ServerName == opts.ServerName
+//@ ensures [callbacks] result1 == nil ==> result0.VerifyPeerCertificate == opts.VerifyPeerCertificate && result0.SessionTicketsDisabled == opts.SessionTicketsDisabled && result0.ClientSessionCache == opts.ClientSessionCache
+//@ ensures [cert1] result1 == nil && (opts.Certificate != "" || opts.LoadedCertificate != nil) ==> len(result0.Certificates) == 1
+//@ ensures [cert0] result1 == nil && opts.Certificate == "" && opts.LoadedCertificate == nil ==> len(result0.Certificates) == 0 && calls(LK) == 0 && calls(XK) == 0
+//@ ensures [certfile] result1 == nil && opts.Certificate != "" ==> calls(LK) == 1 && calls(XK) == 0 && arg(LK,0,0) == opts.Certificate && arg(LK,0,1) == opts.Key && ret(LK,0,1) == nil
+//@ ensures [certloaded] result1 == nil && opts.Certificate == "" && opts.LoadedCertificate != nil ==> calls(LK) == 0 && calls(XK) == 1 && ret(XK,0,1) == nil && (typeis(opts.LoadedKey, "*crypto/rsa.PrivateKey") || typeis(opts.LoadedKey, "*crypto/ecdsa.PrivateKey"))
+//@ ensures [certerr] (calls(LK) == 1 && ret(LK,0,1) != nil) || (calls(XK) == 1 && ret(XK,0,1) != nil) || (calls(EC) == 1 && ret(EC,0,1) != nil) || (calls(RF) == 1 && ret(RF,0,1) != nil) ==> result1 != nil
+//@ ensures [roots.pool] result1 == nil && opts.LoadedCA == nil && opts.CA == "" ==> result0.RootCAs == opts.LoadedCAPool && calls(AC) == 0 && calls(AP) == 0
+//@ ensures [roots.loaded] result1 == nil && opts.LoadedCA != nil ==> result0.RootCAs != nil && calls(AC) == 1 && arg(AC,0,0) == result0.RootCAs && arg(AC,0,1) == opts.LoadedCA && (opts.LoadedCAPool != nil ==> result0.RootCAs == opts.LoadedCAPool)
+//@ ensures [roots.file] result1 == nil && opts.LoadedCA == nil && opts.CA != "" ==> result0.RootCAs != nil && calls(RF) == 1 && arg(RF,0,0) == opts.CA && calls(AP) == 1 && arg(AP,0,0) == result0.RootCAs && arg(AP,0,1) == ret(RF,0,0) && (opts.LoadedCAPool != nil ==> result0.RootCAs == opts.LoadedCAPool)
+
+//@ func TLSTransport
+//@ watch TA = call TLSClientAuth
+//@ ensures calls(TA) == 1 && arg(TA,0,0) == opts
+//@ ensures ret(TA,0,1) != nil ==> result0 == nil && result1 == ret(TA,0,1)
+//@ ensures ret(TA,0,1) == nil ==> result1 == nil && result0 != nil
+
+//@ func TLSClient
+//@ watch TT = call TLSTransport
+//@ ensures calls(TT) == 1 && arg(TT,0,0) == opts
+//@ ensures ret(TT,0,1) != nil ==> result0 == nil && result1 == ret(TT,0,1)
+//@ ensures ret(TT,0,1) == nil ==> result1 == nil && result0 != nil && fresh(result0) && result0.Transport == ret(TT,0,0)
